@@ -70,7 +70,7 @@ def r_timer_reset(ctx):
     tex = U.explorer(ctx, t)
     tcfg = tex.cfg
     tdw = [n.id for n in _deadline_writes(ctx, t, tcfg)]
-    incs = [U.node_containing(tcfg, st) for st, k in U.assigns_to_attr(P, t, R.currentTerm) if k == 'aug']
+    incs = [U.node_containing(tcfg, st) for st in U.increments_of(P, t, R.currentTerm)]
     ctx.require(incs, 'candidacy start (term increment) not found in the tick')
     for inc in incs:
         blk = U.straight_line_block(tcfg, inc.id)
@@ -423,7 +423,8 @@ def r_fallback_every_tick(ctx):
         ctx.violation('%s:fallback-count-condition' % t.qualname, t.loc(c), 'responders are counted under `%s`, which is not "answered after now - leaderFallbackTimeout"' % unparse(c), instance=inst)
     # failing arm
     op = cmpn.ops[0]
-    counter_left = not isinstance(cmpn.left, ast.BinOp)
+    from .election import counter_on_left
+    counter_left = counter_on_left(cmpn)
     fail_when_true = (isinstance(op, (ast.LtE, ast.Lt)) and counter_left) or (isinstance(op, (ast.GtE, ast.Gt)) and not counter_left)
     arm = [d for d, l in cn.succ if l == ('cond', fail_when_true)]
     fol = [n.id for n in _set_state_nodes(ctx, ex, t, 'FOLLOWER')]
